@@ -18,7 +18,7 @@ class C01(flow.Spec):
     go_timeout = 900
     rule = pc.PMM_RULE
     assumptions = pc.PMM_ASSUMPTIONS
-    partial = []
+    partial = pc.PMM_PARTIAL
 
     def gen_cases(self, rng, tier):
         n = {'quick': 700, 'thorough': 20000, 'search': 2500}[tier]
